@@ -77,6 +77,13 @@ CLAIMED.update({
          "DESIGN.md 3 C11"),
 })
 
+CLAIMED.update({
+ "C15": ("Coq CBOR subset with round-trip/injectivity proofs, byte-exact models of Message / Exponent / scalar / point codecs and of the restore-time validation of every stored type + corruption sweep on real material",
+         "C15_cbor_roundtrip, encode_inj/prefix_free, message_roundtrip, scalar/point/exponent round-trips and exact refusal conditions, config_unmarshal_sound (cmp), frost/taproot/doerner/presignature/signature _unmarshal_sound and _total (restoring never panics and only yields objects satisfying the validity rules), message_unmarshal_reports_errors / never_empty are proved; pre-fix decoders stay as _v0 with refutation witnesses. The harness compares the model's encoders/decoders byte-exactly with Go, round-trips every result type of every protocol obtained from real sessions, uses restored objects in later sessions together with the other parties' un-restored material, and applies every single-node corruption of the CBOR tree plus random flips/truncations: Go must return an error or an object satisfying the validity rules (judged with math/big), the model predicts the verdict.",
+         "fxamacker/cbor's leniency (tags, floats, indefinite lengths, duplicate keys) is outside the model and counted as outside-model cases. Primality oracle soundness and `k*G is a curve point` are the only hypotheses of config_unmarshal_sound.",
+         "DESIGN.md 3 C15"),
+})
+
 # properties whose check is complete enough to be claimed in MANIFEST.json right now
-READY = {"C19", "C09", "C18", "C07", "C17", "C01", "C02", "C08", "C14", "C06", "C20", "C16", "C12", "C13", "C11"}
+READY = {"C19", "C09", "C18", "C07", "C17", "C01", "C02", "C08", "C14", "C06", "C20", "C16", "C12", "C13", "C11", "C15"}
 CLAIMED = {k: v for k, v in CLAIMED.items() if k in READY}
